@@ -423,7 +423,9 @@ func vpStoreHarness(prefix string, restart bool) {
 			sc.filters = []*mocrelay.ReqFilter{{Tags: map[string][]string{"t": {"x", "y"}}, Authors: []string{pks[0]}, Limit: vpStoreLimit()}}
 		}
 	case 2:
-		switch vpChoice("filter", 5) {
+		switch vpChoice("filter", 6) {
+		case 5: // an empty filter list matches nothing
+			sc.filters = []*mocrelay.ReqFilter{}
 		case 0:
 			sc.filters = []*mocrelay.ReqFilter{{}}
 		case 1:
